@@ -104,7 +104,8 @@ TreeCDomain(t) ==
     [] t.k = "sms" -> IF t.inner = <<>> THEN AsciiConsistent(t) /\ SmallSegs(t.map)
                       ELSE C09DomainM(t) /\ SmallSegs(t.map) /\ SmallSegs(t.inner[1])
     [] t.k = "concat" -> LET ch == Children(t) IN \A i \in 1..Len(ch) : TreeCDomain(ch[i])
-    [] t.k \in {"replace", "box", "cached"} -> TreeCDomain(t.inner)
+    [] t.k \in {"box", "cached"} -> TreeCDomain(t.inner)
+    [] t.k = "replace" -> TreeCDomain(t.inner) /\ \A i \in 1..Len(t.repls) : IsAscii(t.repls[i].c) /\ t.repls[i].s <= t.repls[i].e
     [] OTHER -> FALSE
 
 (* every CachedSource node gets an identity of its own when a tree is built  *)
